@@ -6,19 +6,26 @@
 
 using namespace verif;
 
-struct CMutex {
-	int excl = 0, shared = 0;
+// Cnt = int: an ordinary mutex object (4-byte aligned).  Cnt = signed char: a mutex type with alignof == 1 (like frg::simple_spinlock,
+// a single bool); the harnesses place such mutexes at ODD addresses - a guard must not borrow bits of the mutex pointer.
+template<class Cnt>
+struct CMutexT {
+	Cnt excl = 0, shared = 0;
 	void lock() { if(excl || shared) note("C12", "guard:double-acquire", "lock() on a mutex that is already held"); excl++; }
 	void unlock() { if(excl != 1) note("C12", "guard:release-of-free-mutex", "unlock() on a mutex that is not exclusively held"); else excl--; }
 	void lock_shared() { if(excl) note("C12", "guard:double-acquire", "lock_shared() on an exclusively held mutex"); shared++; }
 	void unlock_shared() { if(shared < 1) note("C12", "guard:release-of-free-mutex", "unlock_shared() on a mutex that is not share-held"); else shared--; }
 };
+using CMutex = CMutexT<int>;
+using BMutex = CMutexT<signed char>;
+static_assert(alignof(BMutex) == 1);
 static uint32_t mk(uint32_t k, uint32_t a, uint32_t b = 0) { return k | a << 8 | b << 12; }
 
-template<class G, bool Shared>
+template<class G, bool Shared, class MX = CMutex>
 struct GuardHarness : HarnessBase {
 	static constexpr int NS = 3;
-	CMutex m[2];
+	struct alignas(8) Mutexes { char pad = 0; MX m[2]; } mm;   // (for a byte-aligned MX both mutexes sit at odd addresses)
+	MX (&m)[2] = mm.m;
 	alignas(16) unsigned char store[NS][sizeof(G)];
 	// model: slot -> constructed?, mutex index (-1 none), locked?
 	struct M { bool alive = false; int mtx = -1; bool locked = false; bool operator==(const M &) const = default; } ref[NS];
@@ -28,7 +35,7 @@ struct GuardHarness : HarnessBase {
 	G &g(int a) { return *reinterpret_cast<G *>(store[a]); }
 	int holders(int mi) { int c = 0; for(auto &r : ref) if(r.alive && r.locked && r.mtx == mi) c++; return c; }
 	int count(int mi) { return Shared ? m[mi].shared : m[mi].excl; }
-	void reset() { pending().reset(); for(auto &x : m) x = CMutex{}; for(auto &r : ref) r = M{}; memset(store, 0xA5, sizeof store); }
+	void reset() { pending().reset(); for(auto &x : m) x = MX{}; for(auto &r : ref) r = M{}; memset(store, 0xA5, sizeof store); }
 	enum { C_LOCKING, C_DEFER, C_ADOPT, C_DEFAULT, LOCK, UNLOCK, MOVE_CONS, MOVE_ASSIGN, SWAP, DESTROY };
 	void ops(std::vector<uint32_t> &out) {
 		for(uint32_t a = 0; a < NS; a++) {
@@ -89,15 +96,17 @@ struct GuardHarness : HarnessBase {
 };
 
 // the QS lock_guard: construct (locks), unlock, lock, destroy
+template<class MX = CMutex>
 struct QsGuardHarness : HarnessBase {
-	using G = frg::lock_guard<CMutex>;
-	CMutex m[2];
+	using G = frg::lock_guard<MX>;
+	struct alignas(8) Mutexes { char pad = 0; MX m[2]; } mm;
+	MX (&m)[2] = mm.m;
 	alignas(16) unsigned char store[2][sizeof(G)];
 	struct M { bool alive = false; int mtx = -1; bool locked = false; } ref[2];
 	const char *prop() const { return "C12"; }
 	G &g(int a) { return *reinterpret_cast<G *>(store[a]); }
 	int holders(int mi) { int c = 0; for(auto &r : ref) if(r.alive && r.locked && r.mtx == mi) c++; return c; }
-	void reset() { pending().reset(); for(auto &x : m) x = CMutex{}; for(auto &r : ref) r = M{}; }
+	void reset() { pending().reset(); for(auto &x : m) x = MX{}; for(auto &r : ref) r = M{}; }
 	void ops(std::vector<uint32_t> &out) {
 		for(uint32_t a = 0; a < 2; a++) {
 			if(!ref[a].alive) { for(uint32_t mi = 0; mi < 2; mi++) if(!holders(mi)) out.push_back(mk(0, a, mi)); }
@@ -127,7 +136,11 @@ static std::vector<Instance> instances(const std::string &) {
 	std::vector<Instance> v;
 	v.push_back(bfs_instance<GuardHarness<frg::unique_lock<CMutex>, false>>("unique_lock", BfsOptions{}, "unique_lock"));
 	v.push_back(bfs_instance<GuardHarness<frg::shared_lock<CMutex>, true>>("shared_lock", BfsOptions{}, "shared_lock"));
-	v.push_back(bfs_instance<QsGuardHarness>("qs-lock_guard", BfsOptions{}));
+	v.push_back(bfs_instance<QsGuardHarness<>>("qs-lock_guard", BfsOptions{}));
+	// the same three guards over a byte-aligned mutex type whose objects sit at odd addresses
+	v.push_back(bfs_instance<GuardHarness<frg::unique_lock<BMutex>, false, BMutex>>("unique_lock-byte-mutex-odd-address", BfsOptions{}, "unique_lock<byte mutex>"));
+	v.push_back(bfs_instance<GuardHarness<frg::shared_lock<BMutex>, true, BMutex>>("shared_lock-byte-mutex-odd-address", BfsOptions{}, "shared_lock<byte mutex>"));
+	v.push_back(bfs_instance<QsGuardHarness<BMutex>>("qs-lock_guard-byte-mutex-odd-address", BfsOptions{}));
 	return v;
 }
 int main(int argc, char **argv) { return harness_main(argc, argv, instances); }
